@@ -133,8 +133,9 @@ def ledger_clean(led, wd_cfg, expect_control_listener=True):
 
 
 class Scenario:
-    def __init__(self, name, script, users=None, tree=None, server_kwargs=None, backend="memory", spy_setup=None, net_setup=None, family=socket.AF_INET):
+    def __init__(self, name, script, users=None, tree=None, server_kwargs=None, backend="memory", spy_setup=None, net_setup=None, family=socket.AF_INET, task_salt=0):
         self.name = name
+        self.task_salt = task_salt  # iteration order of the server's task sets (simnet.SeqTask)
         self.script = script
         self.users = users or S.USERS_ANON
         self.tree = tree if tree is not None else S.TREE
@@ -246,6 +247,7 @@ async def _scenario(loop, sc, k, intervention, after=None):
 def run_scenario(sc, k=None, intervention=None, after=None):
     import os
 
+    simnet.SeqTask._salt = int(getattr(sc, "task_salt", 0))
     loop = ILoop()
     asyncio.set_event_loop(loop)
     limit = float(os.environ.get("VERIF_WALL_LIMIT", "180"))
